@@ -374,24 +374,26 @@ Proof.
       * now apply relabel_in_g.
       * intros a b ps Hin. rewrite relabel_nodes_fst. now apply (relabel_edges_in_nodes ns es 1 a b ps).
       * apply pdist_relabel; [now apply keys_of_edges | exact Hpd].
-  - (* clone of a graph that holds nodes onto an id that holds none *)
-    apply andb_true_iff in Hds as [Hsrc Htgt].
+  - (* clone: from a graph without nodes (refused by both), or onto an id that holds none *)
     assert (Hview : forall x, abs_disjoint d x = abs_of_view (gn (dget d x), ge (dget d x))).
     { intro x. unfold abs_disjoint, abs_nxg. now rewrite (view_whole _ x (Hhome x) (Hcl x)). }
-    assert (Hempty : gn (dget d g2) = []).
-    { apply negb_true_iff in Htgt. unfold sp_exists in Htgt. rewrite <- (HR g2), Hview in Htgt. unfold abs_of_view in Htgt. cbn [sn fst] in Htgt.
-      destruct (gn (dget d g2)); [reflexivity | discriminate]. }
-    set (ns := gn (dget d g)) in *. set (es := ge (dget d g)) in *.
-    assert (Hio : import_ok (d_extract d g)).
-    { split; [apply extract_edges_ok_disjoint; apply Hwf | apply (Hwf g)]. }
-    unfold d_clone, sp_clone. rewrite <- (HR g), Hview. fold ns es. unfold abs_of_view. cbn [sn se fst snd].
-    destruct (d_add_graph_refines d sp g2 (d_extract d g)
-                (mkSG (map (aset k_graphid (PV g2)) (map snd ns)) (map (abs_edge ns) es)) HR Hempty Hio) as [A B].
-    { intros _. unfold d_extract. cbn [inodes iedges]. fold ns es. now rewrite abs_imported by apply Hio. }
-    unfold d_extract in A, B. cbn [inodes] in A, B. fold ns in A, B. rewrite existsb_missing_snd in A, B.
-    unfold sp_exists in Hsrc. rewrite <- (HR g), Hview in Hsrc. unfold abs_of_view in Hsrc. cbn [sn fst] in Hsrc. fold ns in Hsrc.
-    destruct (map snd ns) as [|p l0] eqn:Eml; [discriminate|].
-    destruct (existsb sp_missing (p :: l0)); cbn [fst snd]; now split.
+    assert (Hex : forall x, sp_exists (sget sp x) = match gn (dget d x) with [] => false | _ => true end).
+    { intro x. unfold sp_exists. rewrite <- (HR x), Hview. unfold abs_of_view. cbn [sn fst]. now destruct (gn (dget d x)). }
+    destruct (d_clone_cases d g g2) as [[Esrc E]|[Esrc E]]; rewrite E.
+    + unfold sp_clone. rewrite <- (HR g), Hview. unfold abs_of_view. cbn [sn fst]. rewrite Esrc. cbn [map fst snd].
+      split; [exact HR | reflexivity].
+    + assert (Hempty : gn (dget d g2) = []).
+      { rewrite !Hex in Hds. destruct (gn (dget d g)); [congruence|]. destruct (gn (dget d g2)); [reflexivity | discriminate]. }
+      set (ns := gn (dget d g)) in *. set (es := ge (dget d g)) in *.
+      assert (Hio : import_ok (d_extract d g)).
+      { split; [apply extract_edges_ok_disjoint; apply Hwf | apply (Hwf g)]. }
+      unfold sp_clone. rewrite <- (HR g), Hview. fold ns es. unfold abs_of_view. cbn [sn se fst snd].
+      destruct (d_add_graph_refines d sp g2 (d_extract d g)
+                  (mkSG (map (aset k_graphid (PV g2)) (map snd ns)) (map (abs_edge ns) es)) HR Hempty Hio) as [A B].
+      { intros _. unfold d_extract. cbn [inodes iedges]. fold ns es. now rewrite abs_imported by apply Hio. }
+      unfold d_extract in A, B. cbn [inodes] in A, B. fold ns in A, B. rewrite existsb_missing_snd in A, B.
+      destruct (map snd ns) as [|p l0] eqn:Eml; [destruct ns; [congruence | discriminate]|].
+      destruct (existsb sp_missing (p :: l0)); cbn [fst snd]; now split.
 Qed.
 
 Lemma refine_home_scope o : refine_scope o = true -> home_scope o = true.
@@ -456,22 +458,22 @@ Theorem disjoint_reimport_live_skips d g ig :
   gn (dget d g) <> [] -> dstep d (OImport g ig) = (d, Ok RUnit).
 Proof. intro H. cbn [dstep]. unfold d_add_graph. destruct (gn (dget d g)); [congruence | reflexivity]. Qed.
 
-(* clone onto an id that holds nodes: nothing happens, the call returns normally *)
+(* clone of a graph that holds nodes onto an id that holds nodes: nothing happens, the call returns normally *)
 Theorem disjoint_clone_live_skips d g g2 :
-  gn (dget d g2) <> [] -> dstep d (OClone g g2) = (d, Ok RUnit).
-Proof. intro H. cbn [dstep]. unfold d_clone, d_add_graph. destruct (gn (dget d g2)); [congruence | reflexivity]. Qed.
-
-(* clone of a graph without nodes onto an id without nodes: returns normally, the new id still holds no node
-   (the reference, like the shared store, fails) *)
-Theorem disjoint_clone_absent_source d g g2 :
-  gn (dget d g) = [] -> gn (dget d g2) = [] ->
-  snd (dstep d (OClone g g2)) = Ok RUnit /\ gn (dget (fst (dstep d (OClone g g2))) g2) = [] /\
-  forall sp, sp_exists (sget sp g) = false -> snd (spec_step sp (OClone g g2)) = Err EAttr.
+  gn (dget d g) <> [] -> gn (dget d g2) <> [] -> dstep d (OClone g g2) = (d, Ok RUnit).
 Proof.
-  intros H1 H2. cbn [dstep spec_step]. unfold d_clone, d_add_graph, d_extract. rewrite H2, H1. cbn.
-  repeat split.
-  - rewrite dget_dput_ctr, dget_dput, N.eqb_refl. unfold nx_add_all. now rewrite fold_add_edges_gn.
-  - intros sp Hs. unfold sp_clone, sp_exists in *. now destruct (sn (sget sp g)).
+  intros H0 H. cbn [dstep]. destruct (d_clone_cases d g g2) as [[E0 _]|[_ E]]; [contradiction|]. rewrite E.
+  unfold d_add_graph. destruct (gn (dget d g2)); [congruence | reflexivity].
+Qed.
+
+(* clone of a graph without nodes is refused by both stores (and by the reference), nothing changes (fix fdc67eb) *)
+Theorem clone_absent_source_agrees s d g g2 :
+  fst (view (sg s) g) = [] -> NoDup (ids (sg s)) -> gn (dget d g) = [] ->
+  sstep s (OClone g g2) = (s, Err EQuery) /\ dstep d (OClone g g2) = (d, Err EQuery).
+Proof.
+  intros Hs Hnd Hd. cbn [sstep dstep]. split.
+  - unfold s_clone. rewrite (extract_is_view (sg s) g Hnd), Hs. reflexivity.
+  - destruct (d_clone_cases d g g2) as [[_ E]|[E0 _]]; [exact E | contradiction].
 Qed.
 
 (* ---------- the extended reference model (cross-graph links) is the reference model on merge-free histories ---------- *)
